@@ -425,6 +425,16 @@ def cg_priority_passthrough(ctx: Ctx, pid: str):
         ok = kw.get("priority") == ac.param(2) and kw.get("conflict") == ("c", True) and kw.get("end") == ac.param(1)
         ctx.check(ok, f"{pid}.add_conflict-record", e.site, "TransactionBase.add_conflict", found=tstr(r),
                   required="RelationBase(end=end, priority=priority, conflict=True, ...)")
+    # both record on the receiver on *every* path: TransactionManager.elaborate harvests relations from the defined
+    # transactions/methods only, and resolves `end` (not the holder) through `_body`
+    for nm, f in (("schedule_before", tb), ("add_conflict", ac)):
+        pred = lambda e: pmatch("self.relations.append(Q_r)", e.call) is not None  # noqa: E731
+        g = f.reach(Effect, pred)
+        gs = [py_guard(e) for _, e in f.facts(Effect, pred)]
+        rejected = f_or(*[f_and(f.reach(Raise, lambda x, r=r: x is r), py_guard(r)) for _, r in f.facts(Raise)])
+        ok = implies(True, f_or(f_and(g, *gs), rejected)) is None
+        ctx.check(ok, f"{pid}.relation-recorded-on-receiver", f.site, f"TransactionBase.{nm}.unconditional", found=f"recorded when {fstr(f_and(g, *gs))}",
+                  required=f"{nm} appends the relation to self.relations for every argument value (no path returns or delegates without recording it on the receiver)")
 
 
 def mgr_relation_copy(ctx: Ctx, pid: str):
